@@ -124,3 +124,19 @@ def to_proto_script(s):
     if s[0] == "panic": return "p"
     if s[0] == "count": return "k[" + ",".join(to_proto_script(x) for x in s[1]) + "]"
     raise ValueError(s)
+
+
+def log_matches(log_text, log):
+    """the call log printed by the harness against the reference log: same handlers in the same order, arguments equal as VALUES
+    (a quotient may carry any scale: 0.5 and 0.50 are the same argument)"""
+    from .. import values
+    try:
+        have = values.log_items(log_text)
+    except Exception:
+        return False
+    if len(have) != len(log): return False
+    for (h1, a1), (h2, a2) in zip(have, log):
+        if h1 != h2 or len(a1) != len(a2): return False
+        for x, y in zip(a1, a2):
+            if not evalspec.seq(evalspec.from_proto(values.parse_value(x)), y): return False
+    return True
